@@ -298,6 +298,27 @@ def o115(ctx):
     ctx.count(1)
     if tm.has_call(to_term(r.ret), ".astype"):
         ctx.finding(RD, "no data_type", "without data_type the map must come back in its stored type", fn, m, returned=tm.show(to_term(r.ret))[:200])
+    # the voxels of the file come back as they are stored: what read returns is the library's array, at most with its axes permuted
+    for name, lib_ in (("x/vol.mrc", "mrcfile.open"), ("x/vol.rec", "mrcfile.open"), ("x/vol.em", "emfile.read")):
+        for transpose in (True, False):
+            it = Interp(ctx.prog, assume=assume_map({"data_type is not None": False, "transpose": transpose}))
+            r = it.run(RD, [K(name)], {"transpose": K(transpose)})
+            t = to_term(r.ret)
+            core = t
+            while core.op == "call" and core.args[0] in (".transpose", ".copy", "numpy.transpose", "numpy.ascontiguousarray", "numpy.array", "numpy.asarray") \
+                    and len(core.args) >= 2:
+                core = core.args[1]
+            plain = core.op == "call" and ((core.args[0] == ".data" and core.args[1].op == "call" and core.args[1].args[0] == lib_)
+                                           or (core.args[0] in ("getitem", "unpack") and core.args[1].op == "call" and core.args[1].args[0] == lib_
+                                               and tm.cval(core.args[2]) == 1))
+            ctx.count(1, {"file": name, "transpose": transpose, "returned without data_type": tm.show(t)[:100]})
+            if not plain:
+                if not tm.has_call(t, lib_):
+                    raise Unsupported(f"what read({name!r}) returns is not recognised: {tm.show(t)[:120]}", fn)
+                ctx.finding(RD, "voxels returned by read", f"read({name!r}) must hand back the voxels stored in the file (axes permuted when transpose is "
+                            f"set, nothing else); it returns {tm.show(t)[:160]}: values are replaced or transformed on the way (a NaN, an infinite "
+                            "or a small value no longer reads back as written)", fn, m)
+                break
 
 
 def _obligations():
